@@ -148,6 +148,8 @@ class Oracle:
             res = {}
             for name, ps in paths.items():
                 pkg = name.split("/")[-1]
+                if "dist" not in ps:
+                    raise RuntimeError("oracle: package %s has no dist workspace after a clean build" % name)
                 t = bobrun.walk_tree(os.path.join(d, ps["dist"]))
                 res[pkg] = {k: list(v) for k, v in t.items()} if t is not None else None
         finally:
@@ -213,6 +215,10 @@ class BehaviourReplay:
         ok = True
         for name, ps in paths.items():
             pkg = name.split("/")[-1]
+            if "dist" not in ps:
+                self.viol("package-result-missing:" + what, package=pkg, proj=proj)
+                ok = False
+                continue
             got = bobrun.walk_tree(os.path.join(self.ws, ps["dist"]))
             got = {k: list(v) for k, v in got.items()} if got is not None else None
             if got != want.get(pkg):
